@@ -58,9 +58,10 @@ Definition c14_clauses (k : c14_case) : list string :=
               | None => []
               | Some (i, m) =>
                   if two63 <=? f_minvals f then ["weak_disallowed:min-validators>=2^63"%string]
-                  else match i with
-                       | O => [("weak_disallowed:first:" ++ msg_type m)%string]
-                       | _ => ["weak_disallowed:later-message-unchecked"%string]
+                  else let detail := match m with MSend _ _ (_ :: _ :: _) => ":coin-set-beyond-the-native-token"%string | _ => ""%string end in
+                       match i with
+                       | O => [("weak_disallowed:first:" ++ msg_type m ++ detail)%string]
+                       | _ => [("weak_disallowed:later:" ++ msg_type m ++ detail)%string]
                        end
               end
             else [])
